@@ -21,6 +21,6 @@ PROP = {
 
 # (category, text, design_ref, technique)
 LEVEL = ("proof",
-         "Width- and signedness-generic Lean 4 theorems about a transcription of compile_num_binary / Expr::Unary / cast_num over BitVec w: add/sub/mul/neg/shl wrap modulo 2^w (the result is the w-bit pattern of the exact integer result), / and % truncate toward zero for non-zero divisors without MIN/-1 (and fault otherwise), & | ~ are bitwise, >> is the floor of value/2^s read with the type's signedness, all six comparisons compare the values read with the type's signedness; integer->integer casts yield the target-width pattern of the SOURCE's value (sign-/zero-extension by the source's signedness, truncation) — full theorem after a `fix:` commit (the pinned code extended by `from.signed && to.signed`: u32.(i8 -1) = 255); integer->float hands the conversion instruction the source's full value for every source of at most 64 bits (pinned: reduced to the target's width first, f32.(i64 2^40) = 0.0) and float->integer yields the truncated value whenever it fits, for every target of at most 64 bits (pinned: saturated at the source float's width, i64.(f32 3e9) = 2147483647) — `_partial` + `_counterexample` theorems for 128-bit integers, where Cranelift has no conversion instruction on x86-64 (known findings, as are the missing 128-bit division and the run-time crash of & | ~ on floats held in memory, the latter fixed by the same commit). Each run builds ~65 (thorough ~400) generated programs with the real CLI covering every (type, operator) and every (source, target) pair on boundary x boundary and random operands (variables, literal right operands and the compound form `x op= lit`), evaluates every point at run time and inside comptime, and compares the printed bit patterns with the model and with an independent i128/u128/host-IEEE oracle; codegen::verif::final_ty ties the type table to calc_finals.",
+         "Width- and signedness-generic Lean 4 theorems about a transcription of compile_num_binary / Expr::Unary / cast_num over BitVec w: add/sub/mul/neg/shl wrap modulo 2^w (the result is the w-bit pattern of the exact integer result), / and % truncate toward zero for non-zero divisors without MIN/-1 (and fault otherwise), & | ~ are bitwise, >> is the floor of value/2^s read with the type's signedness, all six comparisons compare the values read with the type's signedness; integer->integer casts yield the target-width pattern of the SOURCE's value (sign-/zero-extension by the source's signedness, truncation) — full theorem after a `fix:` commit (the pinned code extended by `from.signed && to.signed`: u32.(i8 -1) = 255); integer->float hands the conversion instruction the source's full value for every source of at most 64 bits (pinned: reduced to the target's width first, f32.(i64 2^40) = 0.0) and float->integer yields the truncated value whenever it fits, for every target of at most 64 bits (pinned: saturated at the source float's width, i64.(f32 3e9) = 2147483647) — `_partial` + `_counterexample` theorems for 128-bit integers, where Cranelift has no conversion instruction on x86-64 (known findings, as are the missing 128-bit division and the run-time crash of & | ~ on floats held in memory, the latter fixed by the same commit). Each run builds ~65 (thorough ~400) generated programs with the real CLI covering every (type, operator) and every (source, target) pair on boundary x boundary and random operands (variables, literal right operands and the compound form `x op= lit`, and right operands of every narrower integer type that fits the left one, binary and compound: the operation is the left type's), evaluates every point at run time and inside comptime, and compares the printed bit patterns with the model and with an independent i128/u128/host-IEEE oracle; codegen::verif::final_ty ties the type table to calc_finals.",
          "§4 C08",
          "Lean 4 proof (width-generic BitVec/Int lemmas, no bit-blasting) + end-to-end translation validation on generated programs")
